@@ -376,3 +376,129 @@ func firstDiff(a, b, calls []string) string {
 	}
 	return "lengths differ"
 }
+
+// suiteMergeCrash (C16): a crash at every file-mutation point inside Merge
+// (torn writes included) must leave a directory that reopens to the pre-Merge contents.
+func suiteMergeCrash(seed uint64, n int, work string) {
+	os.MkdirAll(work, 0755)
+	live := NewSt(work + "/live")
+	rec := NewSt(work + "/rec")
+	os.MkdirAll(work+"/live", 0755)
+	os.MkdirAll(work+"/rec", 0755)
+	cur := live
+	nutsdb.VerifObserver = func(op, path string, off int64, d []byte) error { return cur.observer(op, path, off, d) }
+	root := NewPRNG(seed)
+	p := profileByName("mixed")
+	p.WKV, p.WList, p.WSet, p.WZSet = 4, 0, 2, 2
+	p.FixedScores = true
+	p.Abort, p.Oversize, p.ReadOnly, p.DoneCalls, p.Reopen, p.Txs = 10, 2, 5, 0, 0, 12
+	p.NoSPop = true
+	images := 0
+	for i := 0; i < n; i++ {
+		r := root.Fork()
+		seg := []int{150, 200, 300}[r.Intn(3)]
+		sync := r.Intn(2)
+		mode, rw, load := r.Intn(2), r.Intn(2), r.Intn(2)
+		open := optLine(mode, rw, load, sync, seg)
+		emit("#H %d %s mergecrash", i, open)
+		out.Flush()
+		live.comment, rec.comment = true, true
+		cur = live
+		live.run("reset")
+		live.record = true
+		live.events = nil
+		live.run(open)
+		obsOf := func(s *St) []string {
+			prev := cur
+			cur = s
+			rc := s.record
+			s.record = false
+			var rs []string
+			for _, c := range obsCalls(p) {
+				rs = append(rs, s.run(c))
+			}
+			s.record = rc
+			cur = prev
+			return rs
+		}
+		for _, c := range genHistory(r, p, seg) {
+			if c == "reopen" || live.dead {
+				continue
+			}
+			live.run(c)
+		}
+		before := obsOf(live)
+		m0 := len(live.events)
+		mres := live.run("merge")
+		m1 := len(live.events)
+		after := obsOf(live)
+		live.record = false
+		events := live.events
+		live.closeQuiet()
+		if _, real := diffClass(after, before, obsCalls(p)); mres == "ok" && real != "" {
+			emit("#SPEC merge-changed the observation in the running process: %s", real)
+		}
+		for e := m0; e <= m1; e++ {
+			variants := []int{-1}
+			if e < len(events) {
+				variants = tornPoints(events[e])
+			}
+			for _, torn := range variants {
+				images++
+				cur = rec
+				rec.reset()
+				buildImage(rec.dir, events, e, torn, false, false)
+				ropen := optLine(mode, images%2, (images/2)%2, sync, seg)
+				if rec.run(ropen) != "ok" {
+					emit("#SPEC open-failed after a crash during Merge at event %d (%s %s torn=%d) reopen=(%s)", e-m0, evOp(events, e), evPath(events, e), torn, ropen)
+					continue
+				}
+				o := obsOf(rec)
+				if nk, real := diffClass(o, before, obsCalls(p)); real != "" {
+					emit("#SPEC crash during Merge at event %d/%d (%s %s torn=%d): contents differ from before Merge: %s", e-m0, m1-m0, evOp(events, e), evPath(events, e), torn, real)
+				} else if nk > 0 {
+					emit("#KNOWN F30 crash during Merge at event %d/%d: %d empty structures answer 'not found' after recovery", e-m0, m1-m0, nk)
+				}
+				rec.closeQuiet()
+			}
+		}
+		emit("#STAT mergecrash history=%d merge=%s events=%d", i, mres, m1-m0)
+	}
+	emit("#STAT crash images=%d opens=%d", images, images)
+	live.comment, rec.comment = false, false
+	cur = live
+	live.reset()
+	rec.reset()
+	os.RemoveAll(work + "/live")
+	os.RemoveAll(work + "/rec")
+}
+
+func isEmptyAnswer(s string) bool {
+	return s == "bool 0" || s == "int 0" || s == "list" || s == "nodes" || s == "node -"
+}
+
+// diffClass compares an observation with the expected one.  Differences of the
+// known-finding class F30 (a structure that was empty before answers "not found"
+// — err — afterwards) are counted; the first other difference is returned.
+func diffClass(got, want, calls []string) (nF30 int, real string) {
+	if len(got) != len(want) {
+		return 0, "observation lengths differ"
+	}
+	for i := range got {
+		if got[i] == want[i] {
+			continue
+		}
+		if got[i] == "err" && isEmptyAnswer(want[i]) {
+			nF30++
+			continue
+		}
+		if real == "" {
+			c := ""
+			if i < len(calls) {
+				c = calls[i]
+			}
+			real = fmt.Sprintf("call %q recovered=%q expected=%q", c, got[i], want[i])
+		}
+	}
+	return
+}
